@@ -146,7 +146,7 @@ func freeRun(st *Stage, inputs [][]int, cp int) (*Case, bool, string) {
 		ins[i] = make(chan int, cp)
 		icaps[i] = cp
 	}
-	rec := &calls{gates: map[int]chan struct{}{}, start: time.Now()}
+	rec := &calls{decoy: true, gates: map[int]chan struct{}{}, start: time.Now()}
 	outs := build(ctx, st, ins, rec)
 	c := &Case{Stage: st, ICaps: icaps, Inputs: inputs}
 	for _, o := range outs {
@@ -335,7 +335,7 @@ func freeCancel(st *Stage, cp int, k int) (*Case, bool, string) {
 		ins[i] = make(chan int, cp)
 		icaps[i] = cp
 	}
-	rec := &calls{gates: map[int]chan struct{}{}, start: time.Now()}
+	rec := &calls{decoy: true, gates: map[int]chan struct{}{}, start: time.Now()}
 	outs := build(ctx, st, ins, rec)
 	c := &Case{Stage: st, ICaps: icaps, Inputs: make([][]int, nin)}
 	for _, o := range outs {
